@@ -361,3 +361,28 @@ def generic_search(ctx, disagreements, all_jobs, letter_format, quick_s=60, thor
             return {"instance": inst.name, "trace": [list(l) for l in trace], "monitor": msg,
                     "letter_format": letter_format}
     return None
+
+
+def generic_replay(ctx, payload, all_jobs):
+    """`./check Cxx --replay FILE`: re-execute the failing input of a replay file on the real code with the
+    property monitor armed.  Exit 1 (and a VIOLATION line) if the monitor still fires."""
+    fi = payload.get("failing_input") or {}
+    name = fi.get("instance")
+    trace = [tuple(l) for l in fi.get("trace", [])]
+    if not name:
+        print("replay file carries no failing input (no-failing-input-found); disagreements were:")
+        for d in payload.get("disagreements", [])[:3]:
+            print("  ", d)
+        return 1
+    for job in all_jobs:
+        inst = job.make()
+        if inst.name == name:
+            r = replay_with_monitor(inst, trace)
+            if r:
+                print("cycle %d: %s" % r)
+                print("VIOLATION property=%s replay=(replayed)" % ctx.prop)
+                return 1
+            print("trace no longer violates the property on the current tree")
+            return 0
+    print("instance %r not found" % name)
+    return 2
